@@ -316,7 +316,9 @@ def check(run: Run):
         "that run (the process dies while the fault is handled); one evaluation = one child process judged by "
         "OutcomeOK of AtomicWrite.tla; distinct non-trivial = distinct (case, destination state, boundary index, mode, fault variant) whose "
         "child logged the injection at that boundary (dry runs are not counted).  resume clause: every prefix of an apply_to run x {KeyboardInterrupt at the k-th "
-        "data_store.write, hard kill at every file-system boundary of the run} then re-run in append mode, judged by "
+        "data_store.write, hard kill at every file-system boundary of the run} then re-run in append mode, on two store kinds "
+        "(DataStoreDirectory + write_seqs: both interrupt kinds; DataStoreSqlite + write_db: KeyboardInterrupt only) with failing-input sets "
+        "that put not-completed records into the interrupted prefix, judged by "
         "RecOK/ResumeOK of AtomicWriteResume.tla (each interrupted+re-run scenario is one distinct non-trivial case)"
     )
     run.cov["exhaustive"] = True
@@ -328,6 +330,9 @@ def check(run: Run):
         "new content = what an un-faulted write to an absent destination leaves (content correctness is C06/C20's subject); compressed files are compared by payload",
         "zip targets are not transcribed in AtomicWrite.tla (judged by outcome only, no trace validation)",
         "resume: log files of the two runs differ by name and are not compared; inputs are processed serially",
+        "resume on DataStoreSqlite (write_db, re-opened in mode 'a'): interrupted by KeyboardInterrupt between store writes only; a process kill inside "
+        "sqlite's own file I/O or between the DELETE and INSERT statements of one write is not driven (sqlite raises no audit events for statements; "
+        "its journal makes single statements atomic); the log_id column is not compared",
     ]
 
 
